@@ -20,7 +20,7 @@ package main
 //                              field name)
 //         t <h> put K V | del K | get K | commit | rollback      on transaction handle h
 //         l begin rw|ro        GetTransactionManager().BeginTransaction (the accessor path; F1, fixed in b9d5905)
-//         r put K V | del K | merge K V | bad K V | sync          EngineApplier.Apply / Sync
+//         r put K V | del K | merge K V (accepted, no effect) | bad K V | sync    EngineApplier.Apply / Sync
 //         dump                 IsReadOnly + full scan through the embedded iterator
 // Observations (mirrored by model/drv_c16.ml): R <result> | B h=<n> ok [ro=0|1] | G .. |
 // S n=<count> + s K V | K keys=<n> | I role= paddr= ro= | A <result> | D ro= | E .. (table)
@@ -766,7 +766,6 @@ func runC16(c *Case, out func(string)) {
 		}
 		checkData(what)
 	}
-	marker := []bop{{k: []byte("__compact_marker__"), v: []byte("force")}}
 	scanOut := func(l []kvPair) {
 		out(fmt.Sprintf("S n=%d", len(l)))
 		for _, p := range l {
@@ -984,11 +983,12 @@ func runC16(c *Case, out func(string)) {
 				_, err := n.rpc("Compact", rpcArgs{flag: f})
 				r := c16Err(err)
 				out("R " + r)
-				if f {
-					attempt(line, r, marker)
-				} else {
-					checkData(line)
+				// maintenance (an empty transaction, and a memtable flush for force): served on
+				// every node, and never a data change
+				if err != nil {
+					fail(fmt.Sprintf("C16: %s failed: %v", line, err))
 				}
+				checkData(line)
 			case "BeginTransaction":
 				wantRO := l[2] == "ro"
 				if blocks(wantRO, true) {
@@ -1232,13 +1232,16 @@ func runC16(c *Case, out func(string)) {
 			r := c16Err(err)
 			out("A " + r)
 			if e != nil && e.Type != 9 {
-				// replicated operations must take effect
-				nApplied++
+				// replicated operations must be accepted and take effect. A merge entry has no
+				// effect on the primary (no merge operator: neither the write path nor recovery
+				// acts on it), so its effect on the replica is: none — the data must stay as it is
 				if err != nil {
 					fail(fmt.Sprintf("C16: applying the replicated entry %q failed: %v", line, err))
 				} else if e.Type == wal.OpTypeDelete {
+					nApplied++
 					applyRef([]bop{{del: true, k: e.Key}})
-				} else {
+				} else if e.Type == wal.OpTypePut {
+					nApplied++
 					applyRef([]bop{{k: e.Key, v: e.Value}})
 				}
 			}
